@@ -205,6 +205,13 @@ class Prog:
                         'K.fresh_list', 'functools.partial(K.fresh, tag=\'g\')',
                         # factories whose bound arguments are positional only
                         'functools.partial(K.fresh_scaled, 0.5, 2.0)', 'functools.partial(K.fresh_pair, 1)'])
+      acands = [q for q in self.prev if q.kind == 'plain' and getattr(q, 'inline', False)
+                and q.nparams == 1 and q.defaults]
+      if acands and rng.random() < 0.5:
+        # the factory is itself an (always-inline) auto_config function: every call of the built
+        # partial runs it afresh, nested objects included
+        fac = rng.choice(acands).callname
+        self.constructs.add('arg_factory-with-auto_config-function')
       return f'arg_factory.partial({target}, {kw}={fac})'
     if 0.8 <= r < 0.84:
       # classes without an inferrable signature that daglish does not traverse
